@@ -12,6 +12,25 @@ use std::sync::OnceLock;
 
 pub type RunOnce = fn(Vec<String>) -> Result<(), String>;
 
+/// invocations found spinning on the CPU outside any scheduling point (their OS threads are leaked)
+static SPINS: std::sync::atomic::AtomicU32 = std::sync::atomic::AtomicU32::new(0);
+pub fn spin_count() -> u32 {
+    SPINS.load(std::sync::atomic::Ordering::SeqCst)
+}
+/// CPU seconds one invocation may burn between two scheduling points before it counts as spinning
+pub const SPIN_CPU_SECS: f64 = 10.0;
+
+fn thread_cpu_secs(tid: i32) -> Option<f64> {
+    let s = std::fs::read_to_string(format!("/proc/self/task/{tid}/stat")).ok()?;
+    let rest = s.rsplit_once(')')?.1;
+    let f: Vec<&str> = rest.split_whitespace().collect();
+    // after the command name: state is f[0]; utime and stime are fields 14 and 15 of the line
+    let ut: f64 = f.get(11)?.parse().ok()?;
+    let st: f64 = f.get(12)?.parse().ok()?;
+    let hz = unsafe { libc::sysconf(libc::_SC_CLK_TCK) } as f64;
+    Some((ut + st) / hz.max(1.0))
+}
+
 static RUN_ONCE: OnceLock<RunOnce> = OnceLock::new();
 
 #[derive(Clone, Debug, Serialize, Deserialize, PartialEq, Eq)]
@@ -92,7 +111,7 @@ impl Outcome {
         h
     }
     pub fn out_bytes(&self) -> BTreeMap<String, Vec<u8>> {
-        self.after.iter().map(|(k, v)| (k.clone(), v.bytes.clone())).collect()
+        self.after.iter().filter(|(k, _)| !k.ends_with('/')).map(|(k, v)| (k.clone(), v.bytes.clone())).collect()
     }
 }
 
@@ -224,6 +243,13 @@ impl Scratch {
                     std::os::unix::fs::symlink(ws.join("does/not/exist.rs"), &p).expect("symlink")
                 }
                 FileKind::Directory => std::fs::create_dir_all(&p).expect("dir"),
+                FileKind::SymlinkToFile => {
+                    // relative link text, as a checkout would contain it
+                    let target = f.chunks.first().cloned().unwrap_or_default();
+                    let depth = f.path.matches('/').count();
+                    let link = format!("{}{}", "../".repeat(depth), target);
+                    std::os::unix::fs::symlink(link, &p).expect("symlink to file")
+                }
             }
         }
         self.current_version = Some(h);
@@ -246,6 +272,11 @@ pub fn snapshot(loc: &Path) -> Snapshot {
     fn walk(base: &Path, p: &Path, s: &mut Snapshot) {
         let Ok(md) = std::fs::symlink_metadata(p) else { return };
         if md.is_dir() {
+            if p != base {
+                // directories are part of the observable state, too (key ends in '/')
+                let rel = format!("{}/", p.strip_prefix(base).unwrap_or(p).to_string_lossy());
+                s.insert(rel, FileStat { bytes: vec![], ino: md.ino(), mtime_ns: 0 });
+            }
             let Ok(rd) = std::fs::read_dir(p) else { return };
             let mut names: Vec<_> = rd.filter_map(|e| e.ok()).map(|e| e.path()).collect();
             names.sort();
@@ -301,6 +332,9 @@ fn set_tree_times(_root: &Path, ws: &Path, cfg: &Path, secs: i64) {
 pub fn age_files(loc: &Path) {
     let snap = snapshot(loc);
     for (i, (rel, _)) in snap.iter().enumerate() {
+        if rel.ends_with('/') {
+            continue;
+        }
         let p = if rel.is_empty() { loc.to_path_buf() } else { loc.join(rel) };
         let Ok(c) = std::ffi::CString::new(p.to_string_lossy().as_bytes()) else { continue };
         let t = libc::timespec { tv_sec: 1_000_000_000 + i as i64, tv_nsec: 123_456_789 };
@@ -335,7 +369,11 @@ pub fn argv_for(inv: &Inv, ws: &Path, out: &Path, cfg_path: &Path) -> Vec<String
         }
         Mode::Folder => {
             a.push("--output-folder".into());
-            a.push(out.to_string_lossy().into_owned());
+            let mut p = out.join(&inv.out_sub).to_string_lossy().into_owned();
+            if inv.out_sub.ends_with('/') && !p.ends_with('/') {
+                p.push('/');
+            }
+            a.push(p);
         }
     }
     a.extend(inv.extra.iter().cloned());
@@ -371,9 +409,12 @@ pub fn run_invocation(scratch: &mut Scratch, tree: &Tree, inv: &Inv, out: &Path)
     let inv2 = inv.clone();
     let run_once = *RUN_ONCE.get().expect("global_init not called");
 
+    let tid_cell = std::sync::Arc::new(std::sync::atomic::AtomicI32::new(0));
+    let tid_cell2 = tid_cell.clone();
     let handle = std::thread::Builder::new()
         .stack_size(1 << 20)
         .spawn(move || {
+            tid_cell2.store(unsafe { libc::gettid() }, std::sync::atomic::Ordering::SeqCst);
             crate::hashseed::set_thread_hash_seed(inv2.hash_seed | 1);
             crate::shims::channel::reset();
             let fault_rng = crate::rng::Rng::new(inv2.hash_seed ^ 0xFA17).derive(match &inv2.sched {
@@ -392,7 +433,7 @@ pub fn run_invocation(scratch: &mut Scratch, tree: &Tree, inv: &Inv, out: &Path)
             let mut cfg = shuttle::Config::new();
             cfg.stack_size = 2 << 20;
             cfg.failure_persistence = shuttle::FailurePersistence::None;
-            cfg.max_steps = shuttle::MaxSteps::None;
+            cfg.max_steps = shuttle::MaxSteps::FailAfter(crate::sched::N_ADV + crate::sched::N_FAIR);
             cfg.silence_warnings = true;
             let runner = shuttle::Runner::new(sched, cfg);
             let res = std::panic::catch_unwind(std::panic::AssertUnwindSafe(|| {
@@ -472,6 +513,52 @@ pub fn run_invocation(scratch: &mut Scratch, tree: &Tree, inv: &Inv, out: &Path)
             }
         })
         .expect("spawn invocation thread");
+    // watchdog: code that blocks on a primitive the simulator does not own (a std Mutex held across
+    // a scheduling point, a std Condvar) would block this OS thread for real. That is a limit of the
+    // simulator, not a verdict: report it as a harness error instead of hanging the check.
+    let t0 = std::time::Instant::now();
+    let mut polls = 0u64;
+    while !handle.is_finished() {
+        polls += 1;
+        if polls % 4000 == 0 && t0.elapsed() > std::time::Duration::from_secs(3) {
+            // an invocation normally takes about a millisecond. One that has burnt many CPU seconds
+            // without reaching a scheduling point is spinning in the code under test (a busy loop the
+            // scheduler cannot see); its OS thread cannot be stopped and is leaked.
+            let tid = tid_cell.load(std::sync::atomic::Ordering::SeqCst);
+            if let Some(cpu) = thread_cpu_secs(tid) {
+                if cpu >= SPIN_CPU_SECS {
+                    SPINS.fetch_add(1, std::sync::atomic::Ordering::SeqCst);
+                    std::mem::forget(handle);
+                    return Outcome {
+                        class: ResultClass::NoProgress,
+                        err_text: String::new(),
+                        diags: vec![],
+                        oplog: vec![],
+                        chanlog: vec![],
+                        arrival: vec![],
+                        panics: vec![],
+                        panic_message: format!("uncontrolled_spin: {cpu:.0} CPU seconds without reaching a scheduling point"),
+                        probes: Default::default(),
+                        fired: Default::default(),
+                        schedule: vec![],
+                        steps: 0,
+                        switches: 0,
+                        replay_diverged: false,
+                        pipe_states: Default::default(),
+                        hash_calls: 0,
+                        max_tasks: 0,
+                        before,
+                        after: Snapshot::new(),
+                    };
+                }
+            }
+        }
+        if t0.elapsed() > std::time::Duration::from_secs(120) {
+            println!("HARNESS-ERROR an invocation blocked outside the simulator for 120 s (unsimulated blocking primitive?): {:?} {:?}", inv.lang, inv.mode);
+            std::process::exit(2);
+        }
+        std::thread::sleep(std::time::Duration::from_micros(50));
+    }
     let mut o = handle.join().expect("invocation thread must not die");
     o.before = before;
     o.after = snapshot(out);
